@@ -373,9 +373,15 @@ func (ru *run) planReports(parent *chainBlock, plan *blockPlan) {
 					continue
 				}
 				seen[dep] = true
-				if t.Prob(1, 3, "segment_lookup") {
+				switch {
+				case t.Prob(1, 5, "dependency_named_twice"):
+					// the same package as a prerequisite AND in the segment-root lookup: one dependency, named twice
 					r.SegmentRootLookup = append(r.SegmentRootLookup, types.SegmentRootLookupItem{WorkPackageHash: dep, SegmentTreeRoot: types.OpaqueHash(known[dep])})
-				} else {
+					r.Context.Prerequisites = append(r.Context.Prerequisites, types.OpaqueHash(dep))
+					ru.r.Count("probe:dependency_named_as_prerequisite_and_lookup", 1)
+				case t.Prob(1, 3, "segment_lookup"):
+					r.SegmentRootLookup = append(r.SegmentRootLookup, types.SegmentRootLookupItem{WorkPackageHash: dep, SegmentTreeRoot: types.OpaqueHash(known[dep])})
+				default:
 					r.Context.Prerequisites = append(r.Context.Prerequisites, types.OpaqueHash(dep))
 				}
 			}
